@@ -248,6 +248,9 @@ def r3_validator_iter(ctx, R, outs, PATH):
                 absf = v
             if k == "eq" and isinstance(t, tuple) and t[0] == "call" and t[1].endswith("starts_with") and ("'/'" in repr(t)):
                 absf = v
+            if k == "eq" and isinstance(t, tuple) and t[0] == "call" and t[1] == "core::str::<impl str>::starts_with" and len(t[2]) == 2 \
+                    and t[2][0] in (("&", PATH), PATH) and t[2][1] == const(47):
+                absf = v        # starts_with('/') with a char pattern
             if k in ("eq", "notin") and isinstance(t, tuple) and t[0] == "proj" and t[1] == PATH and isinstance(t[2], tuple) and t[2][:3] == ("cidx", 0, False):
                 absf = int(v == 47) if k == "eq" else (0 if 47 in v else absf)
         if absf is None and known_empty(o.cons.log, PATH):
@@ -258,10 +261,14 @@ def r3_validator_iter(ctx, R, outs, PATH):
             src = e["snap"][0] if e["args"][0][0] == "ref" else e["args"][0]
             while isinstance(src, tuple) and src and src[0] in ("&", "refconst", "slice_of"):
                 src = src[1]
+            if isinstance(src, tuple) and src[0] == "call" and src[1] == "core::str::<impl str>::split" and len(src[2]) == 2 and \
+                    src[2][0] in (("&", PATH), PATH) and is_const(src[2][1]) and isinstance(src[2][1][1], int) and src[2][1][1] < 128:
+                # str::split(ASCII char): the same runs as splitting the bytes at that byte
+                src = ("split", PATH, src[2][1])
             if not (isinstance(src, tuple) and src[0] == "split" and src[1] == PATH):
                 bad.append("the segments examined are not `split` of the whole path (%s)" % short(src, 60))
             else:
-                delim = pred_true_set(ctx, src[2])
+                delim = {src[2][1]} if is_const(src[2]) else pred_true_set(ctx, src[2])
                 if delim != {47}:
                     bad.append("the path is split at %s, not at '/'" % (sorted(delim) if delim is not None else "an unrecognised predicate"))
             # the segment predicate: true exactly on ".."
